@@ -307,6 +307,12 @@ def judge(p, j, path="$"):
         return [f"{path}: not a dictionary with exactly one key: {j!r}"]
     ((k, v),) = j.items()
     want = KIND.get(type(p), "unknown")
+    if want == "unknown" and k != "unknown":
+        # a kind the property does not pin: the placeholder today; a rendering of its own (one key that names no OTHER kind) is
+        # equally within the property -- "kinds it has no rendering for become the placeholder" says nothing about which kinds have one
+        if isinstance(k, str) and k and k not in set(KIND.values()):
+            return []
+        return [f"{path}: key {k!r} names another kind; the root is a {type(p).__name__}"]
     if k != want:
         return [f"{path}: key {k!r}, the root is a {type(p).__name__} (expected {want!r})"]
     c = type(p)
